@@ -84,7 +84,8 @@ Theorem C05_open_via_dec : forall kek ver dekf dbf,
 Proof. exact open_via_dec. Qed.
 
 (* "The key-encryption key is consulted only when the database is opened or created, never by
-   later reads or writes": along ANY history of calls and reopens the key is used once at
+   later reads or writes": along ANY history of calls - each with ANY outcome of its save (accepted or refused by the
+   file system: [ev.save_ok]) and of its audit record - and reopens, the key is used once at
    creation and exactly once per reopen - so by no call, in particular not by the first write
    after a reopen; no save uses it (the saved file is a function of the data key and the
    stored wrapped-key bytes only) *)
@@ -150,6 +151,15 @@ Example C05_ex_run :
   (length files, length audits, uses) = (6%nat, 4%nat, 1).
 Proof. vm_compute. reflexivity. Qed.
 (* the right key opens for one use; a foreign key is refused - after one use of ITS OWN *)
+(* a refused save (the rollback path) uses no key either, writes at most a temporary and leaves
+   the file on disk alone: put, refused put, reopen *)
+Definition badenv := {| save_ok := false; audit := AOk |}.
+Example C05_ex_refused :
+  let c := fst (c_create 7 9 0) in
+  let '(files, audits, uses) := run_terms 7 c (db_create N) (first_file c 99)
+     [HCall okenv su (OPut [97] 5) 100; HCall badenv su (OPut [97] 6) 101; HReopen; HCall badenv su (ODel [97]) 102] in
+  (length files, length audits, uses) = (4%nat, 3%nat, 1).
+Proof. vm_compute. reflexivity. Qed.
 Example C05_ex_open_attempts :
   let f := file_of 7 9 0 1 (Sec 3) in
   (snd (c_open 7 f), option_map snd (fst (c_open 7 f)), snd (c_open 8 f), fst (c_open 8 f), snd (c_open 7 (Pub 0)))
